@@ -58,6 +58,8 @@ def lib_ops(st):
     if first and nt >= 2:
         ops.append(('restrict(even)', lambda m: m.restrict(np.arange(0, nt, 2))))
         ops.append(('remove_elements([0])', lambda m: m.remove_elements(np.array([0]))))
+    if first and kind in ('tri', 'tet'):
+        ops.append(('mirrored(e0).oriented()', lambda m: m.mirrored(tuple([1.] + [0.] * (dim - 1))).oriented()))
     if first:
         ops.append(('mirrored(e0)', lambda m: m.mirrored(tuple([1.] + [0.] * (dim - 1)))))
         ops.append(('scaled(2,-.5,..)', lambda m: m.scaled(tuple([2., -.5, 1.5][:dim]))))
@@ -89,7 +91,20 @@ def depth1(st0, tier):
             hs.append(('raw', lab))
     for lab, _ in lib_ops(st0):
         hs.append(('lib', lab))
+    # triangle meshes for which the caller switched off per-cell vertex sorting (legal; adaptive
+    # refinement and oriented() produce them): then local vertex order is real
+    if st0.cls == 'MeshTri1':
+        hs.append(('unsorted', ''))
+        if st0.nt <= lim:
+            u = unsorted_state(st0)
+            for lab, _ in ms.raw_transitions(u, vertex_swaps=False, cell_swaps=False):
+                hs.append(('unsorted', lab))
     return hs
+
+
+def unsorted_state(st0):
+    u = ms.St(st0.cls, st0.p, st0.t, kw={'sort_t': False}, hist=st0.hist + ('sort_t=False',))
+    return u
 
 
 def items(tier, seed):
@@ -112,6 +127,14 @@ def state_of(name, how, lab, seed):
         return st0
     if how == 'raw':
         for l, nx in ms.raw_transitions(st0):
+            if l == lab:
+                return nx
+        raise KeyError(lab)
+    if how == 'unsorted':
+        u = unsorted_state(st0)
+        if lab == '':
+            return u
+        for l, nx in ms.raw_transitions(u, vertex_swaps=False, cell_swaps=False):
             if l == lab:
                 return nx
         raise KeyError(lab)
